@@ -476,6 +476,22 @@ fn gen_ops(rng: &mut Rng, len: usize) -> Vec<Op> {
             ops.push(Op::Cmd(vec![b("GET"), b(ks[0])], [Path::Generic, Path::Fast, Path::Pooled, Path::Batch][rng.gen_range(0..4)].clone()));
             continue;
         }
+        // another block of its own: a server-wide setting that governs how a key reports itself is changed, a small collection is
+        // built on some key (any shard), and the key is asked about itself
+        if rng.gen_range(0..40) == 0 {
+            let (param, build): (&str, fn(&[u8]) -> Argv) = [
+                ("hash-max-listpack-entries", (|k: &[u8]| vec![b("HSET"), k.to_vec(), b("f1"), b("1"), b("f2"), b("2"), b("f3"), b("3")]) as fn(&[u8]) -> Argv),
+                ("list-max-listpack-size", |k: &[u8]| vec![b("RPUSH"), k.to_vec(), b("a"), b("b"), b("c")]),
+                ("zset-max-listpack-entries", |k: &[u8]| vec![b("ZADD"), k.to_vec(), b("1"), b("a"), b("2"), b("b"), b("3"), b("c")]),
+                ("set-max-listpack-entries", |k: &[u8]| vec![b("SADD"), k.to_vec(), b("a"), b("b"), b("c")]),
+            ][rng.gen_range(0..4)];
+            let k = b(keypool[rng.gen_range(0..keypool.len())]);
+            ops.push(Op::Cmd(vec![b("CONFIG"), b("SET"), b(param), gen::pick(rng, &["1", "2", "1000"])], Path::Generic));
+            ops.push(Op::Cmd(vec![b("DEL"), k.clone()], Path::Generic));
+            ops.push(Op::Cmd(build(&k), Path::Generic));
+            ops.push(Op::Cmd(vec![b("OBJECT"), b("ENCODING"), k], Path::Generic));
+            continue;
+        }
         match rng.gen_range(0..30) {
             0 | 1 => {
                 let ms = gen::gen_advance(rng);
